@@ -378,7 +378,7 @@ func c07RunE2E(b core.Batch, r *core.Recorder) {
 			addIn(s, size)
 		}
 	}
-	ifKinds := []string{"absent", "absent", "match-etag", "other-etag", "weak-etag", "date-equal", "date-earlier", "date-later", "garbage"}
+	ifKinds := []string{"absent", "absent", "match-etag", "other-etag", "weak-etag", "date-equal", "date-earlier", "date-later", "garbage", "empty", "blank"}
 	for i, in := range inputs {
 		ifk := ifKinds[i%len(ifKinds)]
 		c := c07e2eCase{ID: fmt.Sprintf("e%d", i), Range: in.s, Size: in.size, IfKind: ifk, Retry: retry, Mode: string(mode), Backend: backend}
@@ -398,6 +398,8 @@ func c07RunE2E(b core.Batch, r *core.Recorder) {
 			c.IfRange = rig.LastMod(5)
 		case "garbage":
 			c.IfRange = "%%%"
+		case "blank":
+			c.IfRange = " \t "
 		}
 		if !r.Case(c.ID, c) {
 			continue
@@ -420,7 +422,8 @@ func c07callImplSafe(s string, size int64) c07impl { return c07callImpl(s, size)
 func c07e2eOne(r *core.Recorder, p *rig.ProxyRig, o *rig.Origin, mode rig.Mode, c c07e2eCase) {
 	r.Eval(1)
 	q := rig.Req{Target: fmt.Sprintf("/s%d", c.Size), Header: [][2]string{{"Range", c.Range}}}
-	if c.IfRange != "" {
+	if c.IfRange != "" || c.IfKind == "empty" {
+		// "empty" / "blank": the field is present with no value; only "answered, and exactly, if at all" is demanded
 		q.Header = append(q.Header, [2]string{"If-Range", c.IfRange})
 	}
 	npan := len(p.Panics())
@@ -522,7 +525,7 @@ func init() {
 		ID:    "C07",
 		Level: "exploration",
 		Rule: "function level: every string prefix+tokens with prefix in 11 unit forms and up to <depth> tokens from {-, ',', SP, 0, 1, 9, 10, size-1, size, 2^31-1, 2^31, 2^32-1, 2^32, 2^63-1, 2^63, 2^64-1, 2^64, 10^30, x} for each representation size in {0,1,2,17,1000,70000} (bounded-exhaustive) plus seeded random strings, through the real header parser + SliceSize under recover, judged against an arbitrary-precision RFC 9110 reference; " +
-			"end to end: one representative per (reference class, implementation behaviour, length) group and size, 22 fixed boundary strings per size and a seeded sample, crossed round-robin with 9 If-Range forms, both retry_on_invalid_range settings, both backends and transports, through the real proxy against an origin that ignores Range; the 206/416/200 the client parses is checked byte for byte. Non-trivial = distinct (string,size) that is not 'malformed' (function level) / distinct case (e2e).",
+			"end to end: one representative per (reference class, implementation behaviour, length) group and size, 22 fixed boundary strings per size and a seeded sample, crossed round-robin with 11 If-Range forms (incl. a present but empty / blank field), both retry_on_invalid_range settings, both backends and transports, through the real proxy against an origin that ignores Range; the 206/416/200 the client parses is checked byte for byte. Non-trivial = distinct (string,size) that is not 'malformed' (function level) / distinct case (e2e).",
 		Assumptions: []string{"a Range string that is not well-formed even after removing SP/HTAB has no defined meaning: any in-bounds slice, 416 or full 200 is accepted for it",
 			"a well-formed satisfiable range may be refused (416 / 200) but if a 206 is served it must be exactly the RFC 9110 slice", "If-Range with a date later than Last-Modified is not judged"},
 		Plan:     c07Plan,
